@@ -213,7 +213,9 @@ impl Archive {
         for band_id in band_ids {
             let band = Band::open(&archive, *band_id).await?;
             let mut iter = band.index().iter_available_hunks().await;
-            while let Some(hunk) = iter.next().await {
+            // A hunk that cannot be read must stop the scan: treating its blocks as
+            // unreferenced would let gc delete data that kept bands still use.
+            while let Some(hunk) = iter.try_next().await? {
                 for addr in hunk.into_iter().flat_map(|entry| entry.addrs) {
                     blocks.insert(addr.hash);
                     task.increment(1);
